@@ -445,8 +445,8 @@ enum EFin {
     Inner(u8), // nested element kind
 }
 
-fn element_writer(pre: &[EOp], fin: EFin, indent: Option<(u8, usize)>) -> Result<(), String> {
-    let r = guarded(|| -> Result<(), String> {
+fn element_writer(pre: &[EOp], fin: EFin, indent: Option<(u8, usize)>) -> Result<Vec<u8>, String> {
+    let r = guarded(|| -> Result<Vec<u8>, String> {
         let mut w = match indent {
             None => Writer::new(Vec::new()),
             Some((c, n)) => Writer::new_with_indent(Vec::new(), c, n),
@@ -512,10 +512,68 @@ fn element_writer(pre: &[EOp], fin: EFin, indent: Option<(u8, usize)>) -> Result
         if got != want {
             return Err(format!("written {:?}, read back {:?}, expected {:?}", lossy(&bytes), got, want));
         }
-        Ok(())
+        Ok(bytes)
     });
     match r {
         Ok(x) => x,
+        Err(p) => Err(format!("panic: {}", p)),
+    }
+}
+
+/// The same builder calls through the asynchronous ElementWriter methods over a scripted sink; returns the bytes.
+fn element_writer_async(pre: &[EOp], fin: EFin, indent: Option<(u8, usize)>, script: Vec<(usize, WAnswer)>, calls_out: &mut usize) -> Result<Vec<u8>, String> {
+    let horizon = 256 + 8 * script.len();
+    let r = guarded_mut(|| -> Result<(Vec<u8>, usize), String> {
+        let sink = ScriptedWrite::new(script);
+        let mut w = match indent {
+            None => Writer::new(sink),
+            Some((c, n)) => Writer::new_with_indent(sink, c, n),
+        };
+        {
+            let mut ew = w.create_element("el");
+            for op in pre {
+                match op {
+                    EOp::Attr(k) => {
+                        let (key, val) = [("k", "v"), ("q", "\"<'>&"), ("n:m", " a b ")][*k as usize];
+                        ew = ew.with_attribute((key, val));
+                    }
+                    EOp::Attrs => ew = ew.with_attributes([("x", "1"), ("y", "2")]),
+                    EOp::NewLine => ew = ew.new_line(),
+                }
+            }
+            let res: Option<Result<(), quick_xml::Error>> = match fin {
+                EFin::Empty => block_on(ew.write_empty_async(), horizon).map(|r| r.map(|_| ())),
+                EFin::Text => block_on(ew.write_text_content_async(BytesText::new("t<&>")), horizon).map(|r| r.map(|_| ())),
+                EFin::CData => block_on(ew.write_cdata_content_async(BytesCData::new("c<&>")), horizon).map(|r| r.map(|_| ())),
+                EFin::PI => block_on(ew.write_pi_content_async(BytesPI::new("p d")), horizon).map(|r| r.map(|_| ())),
+                EFin::Inner(k) => block_on(
+                    ew.write_inner_content_async::<_, _, quick_xml::Error>(|w| async move {
+                        let inner = w.create_element("in").with_attribute(("i", "<1>"));
+                        match k {
+                            0 => inner.write_empty_async().await,
+                            1 => inner.write_text_content_async(BytesText::new("x")).await,
+                            _ => inner.write_inner_content_async::<_, _, quick_xml::Error>(|w| async move { w.create_element("deep").write_empty_async().await }).await,
+                        }
+                    }),
+                    horizon,
+                )
+                .map(|r| r.map(|_| ())),
+            };
+            match res {
+                None => return Err("async ElementWriter call did not complete".into()),
+                Some(Err(e)) => return Err(format!("{:?}", e)),
+                Some(Ok(())) => {}
+            }
+        }
+        let sink = w.into_inner();
+        Ok((sink.out, sink.calls))
+    });
+    match r {
+        Ok(Ok((b, c))) => {
+            *calls_out = c;
+            Ok(b)
+        }
+        Ok(Err(e)) => Err(e),
         Err(p) => Err(format!("panic: {}", p)),
     }
 }
@@ -532,7 +590,7 @@ pub fn run(ctx: &Ctx) {
          constructor) and comment payload; (c) the BytesStart edit machine: every sequence of up to 5/6 operations out of set_name x3, \
          push_attribute x6, extend_attributes, clear_attributes, with_attributes, to_owned, borrow+to_owned, into_owned, with name() and \
          attributes() compared with a (name, Vec<(k,v)>) model after EVERY step and the written tag re-read at the end; (d) ElementWriter: \
-         every sequence of up to 3 with_attribute/with_attributes/new_line calls x 7 finishing calls x {no indent, 2 blanks, tab}; (e) \
+         every sequence of up to 3 with_attribute/with_attributes/new_line calls x 7 finishing calls x {no indent, 2 blanks, tab}, and the same calls through the asynchronous methods (write_*_async) over a scripted AsyncWrite with one Pending / one-byte short write at every call index and with one-byte writes throughout, which must give the same bytes; (e) \
          async writer: every sequence of up to 2 specs through write_event_async over a scripted AsyncWrite with every placement of up to \
          2/3 deviations (Pending / one-byte short write) must produce the sync writer's bytes. Oracle: adjacent texts coalesced, empty ones \
          dropped, attribute values / text / comments unescape to the original strings, CDATA pieces concatenate to the original, Decl \
@@ -630,7 +688,36 @@ pub fn run(ctx: &Ctx) {
         acc.traces += 1;
         acc.transitions += pre.len() as u64 + 1;
         match element_writer(&pre, fin, ind) {
-            Ok(()) => acc.nt_count += 1,
+            Ok(sync) => {
+                acc.nt_count += 1;
+                // the asynchronous builder methods must produce the same bytes, whatever the sink does:
+                // no deviation, one Pending / one-byte short write at every call index, one-byte writes throughout
+                let mut calls = 0;
+                let mut scripts: Vec<Vec<(usize, WAnswer)>> = vec![vec![]];
+                match element_writer_async(&pre, fin, ind, vec![], &mut calls) {
+                    Ok(_) => {
+                        for c in 0..calls {
+                            scripts.push(vec![(c, WAnswer::Pending)]);
+                            scripts.push(vec![(c, WAnswer::OneByte)]);
+                        }
+                        scripts.push((0..sync.len() + 8).map(|c| (c, WAnswer::OneByte)).collect());
+                    }
+                    Err(_) => {}
+                }
+                for sc in scripts {
+                    acc.evaluations += 1;
+                    acc.traces += 1;
+                    let mut c2 = 0;
+                    match element_writer_async(&pre, fin, ind, sc.clone(), &mut c2) {
+                        Ok(b) if b == sync => {}
+                        other => acc.violation(
+                            (3, i),
+                            format!("ElementWriter {:?} then {:?} (async methods), indent {:?}, sink schedule {:?}: {:?}, the synchronous methods write {:?}", pre, fin, ind, &sc[..sc.len().min(4)], other.map(|b| lossy(&b)), lossy(&sync)),
+                            json!({"kind": "element_writer", "pre": d, "fin": (i / 3) % 7, "indent": i % 3}),
+                        ),
+                    }
+                }
+            }
             Err(what) => acc.violation((3, i), format!("ElementWriter {:?} then {:?}, indent {:?}: {}", pre, fin, ind, what), json!({"kind": "element_writer", "pre": d, "fin": (i / 3) % 7, "indent": i % 3})),
         }
     });
@@ -711,7 +798,7 @@ pub fn replay(case: &Value) -> Result<(), String> {
             let fins = [EFin::Empty, EFin::Text, EFin::CData, EFin::PI, EFin::Inner(0), EFin::Inner(1), EFin::Inner(2)];
             let indents = [None, Some((b' ', 2usize)), Some((b'\t', 1usize))];
             let pre: Vec<EOp> = case["pre"].as_array().unwrap().iter().map(|v| eops[v.as_u64().unwrap() as usize]).collect();
-            element_writer(&pre, fins[case["fin"].as_u64().unwrap() as usize], indents[case["indent"].as_u64().unwrap() as usize])
+            element_writer(&pre, fins[case["fin"].as_u64().unwrap() as usize], indents[case["indent"].as_u64().unwrap() as usize]).map(|_| ())
         }
         _ => Err("unknown case kind".into()),
     }
